@@ -8,7 +8,7 @@ use text2num::digit_string::DigitString;
 use crate::api::{Api, ErrK};
 use crate::spell;
 
-pub const PUNCT: [&str; 14] = [",", ".", ";", ":", "!", "?", "(", ")", "\"", "…", "...", "/", "«", "—"];
+pub const PUNCT: [&str; 18] = [",", ".", ";", ":", "!", "?", "(", ")", "\"", "…", "...", "/", "«", "—", "¿", "¡", "»", "„"];
 /// punctuation that may directly follow a number word
 pub const PUNCT_AFTER: [&str; 8] = [",", ".", ";", ":", "!", "?", ")", "\""];
 pub const PUNCT_BEFORE: [&str; 3] = ["(", "\"", "«"];
